@@ -14,6 +14,12 @@
 #include <stdint.h>
 uint32_t nondet_u32(void);
 
+/* count * w for 0 <= w <= 63, written as shift-and-add over the 6 bits of w (a 64x64 product stalls the SAT back end) */
+#define CQV_MULW(count, w) ((((w) & 1) ? (size_t)(count) : (size_t)0) + (((w) & 2) ? (size_t)(count) << 1 : (size_t)0) + \
+  (((w) & 4) ? (size_t)(count) << 2 : (size_t)0) + (((w) & 8) ? (size_t)(count) << 3 : (size_t)0) + \
+  (((w) & 16) ? (size_t)(count) << 4 : (size_t)0) + (((w) & 32) ? (size_t)(count) << 5 : (size_t)0))
+#define CQV_PACKED(count, w) ((CQV_MULW(count, w) + 7) >> 3)
+
 size_t carquet_bitunpack_32(const uint8_t *input, size_t count, int bit_width, uint32_t *values) {
   __CPROVER_precondition(bit_width >= 0 && bit_width <= 32, "bitunpack_32: 0 <= bit_width <= 32");
   __CPROVER_precondition(count <= ((size_t)1 << 32), "bitunpack_32: count bounded");
@@ -22,7 +28,7 @@ size_t carquet_bitunpack_32(const uint8_t *input, size_t count, int bit_width, u
     if (count) __CPROVER_havoc_slice(values, count << 2);
     return 0;
   }
-  __CPROVER_precondition(__CPROVER_r_ok(input, (count * (size_t)bit_width + 7) >> 3),
+  __CPROVER_precondition(__CPROVER_r_ok(input, CQV_PACKED(count, bit_width)),
                          "bitunpack_32: input readable for ceil(count*bit_width/8) bytes");
 #ifdef CQV_BITPACK_EXACT
   for (size_t i = 0; i < 32; i++) {
@@ -40,7 +46,7 @@ size_t carquet_bitunpack_32(const uint8_t *input, size_t count, int bit_width, u
 #else
   if (count) __CPROVER_havoc_slice(values, count << 2);
 #endif
-  return (count * (size_t)bit_width + 7) >> 3;
+  return CQV_PACKED(count, bit_width);
 }
 
 size_t carquet_bitpack_32(const uint32_t *values, size_t count, int bit_width, uint8_t *output) {
@@ -48,8 +54,8 @@ size_t carquet_bitpack_32(const uint32_t *values, size_t count, int bit_width, u
   __CPROVER_precondition(count <= ((size_t)1 << 32), "bitpack_32: count bounded");
   if (bit_width == 0 || count == 0) return 0;
   __CPROVER_precondition(__CPROVER_r_ok(values, count << 2), "bitpack_32: values readable (count uint32)");
-  __CPROVER_precondition(__CPROVER_w_ok(output, (count * (size_t)bit_width + 7) >> 3),
+  __CPROVER_precondition(__CPROVER_w_ok(output, CQV_PACKED(count, bit_width)),
                          "bitpack_32: output writable for ceil(count*bit_width/8) bytes");
-  __CPROVER_havoc_slice(output, (count * (size_t)bit_width + 7) >> 3);
-  return (count * (size_t)bit_width + 7) >> 3;
+  __CPROVER_havoc_slice(output, CQV_PACKED(count, bit_width));
+  return CQV_PACKED(count, bit_width);
 }
